@@ -34,7 +34,10 @@ let () =
         if geti "problems" > 0 then ks := "spec:handle-changed" :: !ks;
         if geti "fds" > 0 then ks := "spec:leaked-fd" :: !ks;
         if geti "maps" > 0 then ks := "spec:leaked-mapping" :: !ks;
-        if geti "files" > 1 then ks := "spec:stale-files" :: !ks;
+        (* known finding F31: once a round has left the store with a footer tree without any segment
+           (every collection holding data was dropped) the data file has no owner and is never unlinked *)
+        if geti "files" > 1 then
+          ks := (if geti "emptyfooters" > 0 then "spec:stale-files-after-file-switch" else "spec:stale-files") :: !ks;
         let nlabels = List.length (Sexp.field_exn "labels" items) in
         let nt = if List.length evs > 20 then 1 else 0 in
         if !ks = [] then Printf.printf "CASE %d seed=%s AGREE steps=%d nontrivial=%d\n" !cur_id !cur_seed nlabels nt
